@@ -4,6 +4,7 @@ From Coq Require Import List Arith NArith Bool Lia.
 Import ListNotations.
 Require Import MRB.Base.Ring MRB.Base.ListAux MRB.Model.Types MRB.Model.Seq MRB.Spec.Pipe.
 Require Import MRB.Proofs.Rel MRB.Proofs.TapeFacts MRB.Proofs.Refine MRB.Proofs.SpecFacts MRB.Props.Examples.
+Require MRB.Conc.RAx MRB.Conc.RAxproof.
 
 Theorem C12_local :
   forall (a : Pipe.pipe) (k : Types.stage) (o : Types.op), Pipe.a_detached k a = true -> detached_op k o = true -> let a' := fst (Pipe.sstep a o) in observed a' = observed a /\ Pipe.tape a' = Pipe.tape a /\ (forall j : Types.stage, j <> k -> Types.tget j (Pipe.lpos a') = Types.tget j (Pipe.lpos a) /\ Pipe.a_avail j a' = Pipe.a_avail j a).
@@ -30,3 +31,19 @@ Theorem C12_go_back_ring :
 Proof. exact Ring.wsub_mod. Qed.
 Print Assumptions C12_go_back_ring.
 
+
+(** under concurrency (Conc/RAx.v: Detach / Sync / Attach commands interleaved with a running producer):
+    detached operation is race free; what the consumer has published never exceeds its local position,
+    and equals it whenever it is attached *)
+Theorem C12_detached_concurrent_race_free :
+  forall len script, 0 < len -> MRB.Conc.RAx.race (MRB.Conc.RAx.exec_x len (MRB.Conc.RAx.init_x len) script) = false.
+Proof. exact MRB.Conc.RAxproof.spsc_x_race_free. Qed.
+Print Assumptions C12_detached_concurrent_race_free.
+
+Theorem C12_published_le_local :
+  forall len script, 0 < len ->
+  let c := MRB.Conc.RAx.exec_x len (MRB.Conc.RAx.init_x len) script in
+  MRB.Conc.RAx.publishedC c <= MRB.Conc.RAx.pos (MRB.Conc.RAx.C c) /\
+  (MRB.Conc.RAx.det (MRB.Conc.RAx.C c) = false -> MRB.Conc.RAx.publishedC c = MRB.Conc.RAx.pos (MRB.Conc.RAx.C c)).
+Proof. exact MRB.Conc.RAxproof.published_le_local. Qed.
+Print Assumptions C12_published_le_local.
